@@ -11,7 +11,7 @@ for m in sorted(glob.glob('/verif/seeded/*/meta.json')):
     rows.append((sid, d.get('property'), d.get('summary', ''), 'yes' if ok else 'NO', ', '.join(d.get('detected_by') or []) or '**missed**', '; '.join(keys[:3]), d.get('history', '')))
 with open('/verif/seeded/INDEX.md', 'w') as f:
     f.write('# Seeded changes\n\nEach directory holds `patch.diff` (apply with `git -C /repo apply`), the demonstration, the author\'s README and `meta.json`.\n'
-            'Seeds named <ID> are round 1, <ID>b round 2, <ID>c round 3 (authors of the later rounds were told only that earlier rounds existed and to aim at a less prominent clause, path or mechanism).\nAll were written by fresh sub-agents that saw only the property text; each was confirmed here (applies, builds, repository tests pass,\n'
+            'Seeds named <ID> are round 1, <ID>b round 2, <ID>c round 3, <ID>d round 4 (authors of the later rounds were told only that earlier rounds existed and to aim at a less prominent clause, path or mechanism; round-4 authors also that a generated-input check guards the property).\nAll were written by fresh sub-agents that saw only the property text; each was confirmed here (applies, builds, repository tests pass,\n'
             'demo fails with / passes without) before being kept.\n\n| seed | property | what it breaks / needs | confirmed | detected by | violation keys | history (what the first run missed and what changed) |\n|---|---|---|---|---|---|---|\n')
     for r in rows:
         f.write('| ' + ' | '.join(str(x) for x in r) + ' |\n')
